@@ -495,6 +495,12 @@ fn run_history(ctx: &mut Ctx, c: &Case, k: &K, plain: &[u8], h: &[Op]) -> Result
             Op::Read(n) => {
                 let n = n.eval(k) as usize;
                 let at = m.position();
+                // an empty buffer first: Ok(0), nothing moves (whatever the state of the reader)
+                match r.read(&mut []) {
+                    Ok(0) => ctx.count("zero_size_reads"),
+                    Ok(x) => return Err(fail("read", at, format!("read into an empty buffer returned {x}"))),
+                    Err(e) => return Err(fail("read", at, format!("read into an empty buffer failed: {e}"))),
+                }
                 let mut want = vec![0u8; n];
                 let wn = read_full(&mut m, &mut want).unwrap();
                 want.truncate(wn);
@@ -532,7 +538,117 @@ fn read_full<R: Read>(r: &mut R, buf: &mut [u8]) -> std::io::Result<usize> {
     Ok(n)
 }
 
+/// Read + Seek over `prefix` + `unit` repeated `n` times + `suffix`, without holding the whole in memory
+struct Repeated {
+    prefix: Vec<u8>,
+    unit: Vec<u8>,
+    n: u64,
+    suffix: Vec<u8>,
+    pos: u64,
+}
+impl Repeated {
+    fn len(&self) -> u64 {
+        self.prefix.len() as u64 + self.unit.len() as u64 * self.n + self.suffix.len() as u64
+    }
+}
+impl Read for Repeated {
+    fn read(&mut self, buf: &mut [u8]) -> std::io::Result<usize> {
+        let (pl, ul) = (self.prefix.len() as u64, self.unit.len() as u64);
+        let body_end = pl + ul * self.n;
+        let (src, off): (&[u8], usize) = if self.pos < pl {
+            (&self.prefix, self.pos as usize)
+        } else if self.pos < body_end {
+            (&self.unit, ((self.pos - pl) % ul) as usize)
+        } else {
+            (&self.suffix, (self.pos - body_end).min(self.suffix.len() as u64) as usize)
+        };
+        let n = buf.len().min(src.len() - off);
+        buf[..n].copy_from_slice(&src[off..off + n]);
+        self.pos += n as u64;
+        Ok(n)
+    }
+}
+impl Seek for Repeated {
+    fn seek(&mut self, p: SeekFrom) -> std::io::Result<u64> {
+        let new = match p {
+            SeekFrom::Start(x) => x as i128,
+            SeekFrom::Current(d) => self.pos as i128 + d as i128,
+            SeekFrom::End(d) => self.len() as i128 + d as i128,
+        };
+        if new < 0 {
+            return Err(std::io::Error::new(std::io::ErrorKind::InvalidInput, "negative position"));
+        }
+        self.pos = new as u64;
+        Ok(self.pos)
+    }
+}
+
+/// A compressed stream of more than 4 GiB (1100 identical incompressible 4 MiB blocks, served by a
+/// virtual source): positions beyond 2^32 in the compressed stream, seeks from the end, reads
+/// across block edges far into the stream, all compared with the plaintext (block i = the same block)
+fn huge_compressed_stream(ctx: &mut Ctx) {
+    let k = ctx.k;
+    let blocks = 1100u64;
+    let plain_block = file_bytes(ctx.seed ^ 0x4B16, 0, DataKind::Random, k.block as usize);
+    let unit = fmt::brotli_compress(&plain_block, 1);
+    let suffix = fmt::enc_sizes_footer(&vec![unit.len() as u32; blocks as usize], k.block as u32);
+    let total = k.block * blocks;
+    ctx.eval(ctx.seed ^ 0x4B16, true);
+    ctx.count("layer:comp_beyond_4gib");
+    let scen = json!({"case": {"layer": "comp", "blocks": blocks, "compressed_block": unit.len()}, "k": k.name()});
+    let r = guarded(|| -> Result<(), String> {
+        let mut src = Repeated { prefix: fmt::enc_header(2, None), unit: unit.clone(), n: blocks, suffix: suffix.clone(), pos: 0 };
+        if src.len() <= 1 << 32 {
+            return Err("HARNESS: the stream is not beyond 4 GiB".into());
+        }
+        let _header = ArchiveHeader::from(&mut src).map_err(|e| format!("header: {e}"))?;
+        let mut raw = Box::new(RawLayerReader::new(src));
+        raw.reset_position().map_err(|e| e.to_string())?;
+        let mut r = CompressionLayerReader::new(raw).map_err(|e| format!("comp new: {e}"))?;
+        r.initialize().map_err(|e| format!("initialize: {e}"))?;
+        let expect = |pos: u64, n: usize| -> Vec<u8> {
+            let avail = (total.saturating_sub(pos)).min(n as u64);
+            (0..avail).map(|i| plain_block[((pos + i) % k.block) as usize]).collect()
+        };
+        let targets = [0u64, 5 * k.block - 3, 1023 * k.block - 7, 1024 * k.block, 1060 * k.block + 12345, 1061 * k.block - 10, total - 5, total];
+        for t in targets {
+            let got = r.seek(SeekFrom::Start(t)).map_err(|e| format!("seek(Start({t})) failed: {e}"))?;
+            if got != t {
+                return Err(format!("seek(Start({t})) returned {got}"));
+            }
+            let mut buf = vec![0u8; 70_000];
+            let n = read_full(&mut r, &mut buf).map_err(|e| format!("read at {t} failed: {e}"))?;
+            if buf[..n] != expect(t, 70_000)[..] {
+                return Err(format!("read of 70000 at {t}: {n} bytes, not the bytes of the stream"));
+            }
+            let p = r.stream_position().map_err(|e| e.to_string())?;
+            if p != t + n as u64 {
+                return Err(format!("position after reading {n} at {t}: {p}"));
+            }
+        }
+        let got = r.seek(SeekFrom::End(-9)).map_err(|e| format!("seek(End(-9)) failed: {e}"))?;
+        if got != total - 9 {
+            return Err(format!("seek(End(-9)) returned {got}, length is {total}"));
+        }
+        let back = r.seek(SeekFrom::Current(-(3 * k.block as i64))).map_err(|e| format!("seek(Current) failed: {e}"))?;
+        let mut buf = vec![0u8; 100];
+        let n = read_full(&mut r, &mut buf).map_err(|e| format!("read failed: {e}"))?;
+        if buf[..n] != expect(back, 100)[..] {
+            return Err("read after a relative seek: not the bytes of the stream".into());
+        }
+        Ok(())
+    });
+    match r {
+        Ok(Ok(())) => ctx.count("held:comp_beyond_4gib"),
+        Ok(Err(e)) => ctx.violation("C11", "comp:beyond-4GiB-of-compressed-data", scen, json!({"message": e})),
+        Err((loc, msg)) => ctx.violation("C11", &format!("comp:panic:{loc}:beyond-4GiB"), scen, json!({"panic": msg})),
+    }
+}
+
 pub fn run(ctx: &mut Ctx) {
+    if ctx.k.is_prod() && ctx.mine(11) {
+        huge_compressed_stream(ctx);
+    }
     if ctx.k.is_prod() {
         let residues: &[i64] = if ctx.quick() { &[1, 0] } else { &[1, 0, 2, -1, 17, 4096] };
         for (i, r) in residues.iter().enumerate() {
@@ -568,6 +684,10 @@ pub fn run(ctx: &mut Ctx) {
 }
 
 pub fn replay(ctx: &mut Ctx, scenario: &Value) -> Result<(), String> {
+    if scenario["case"]["blocks"].is_u64() {
+        huge_compressed_stream(ctx);
+        return Ok(());
+    }
     let c: Case = serde_json::from_value(scenario["case"].clone()).map_err(|e| e.to_string())?;
     // sizes and targets are symbolic: the same case is meaningful under any constant set
     run_case(ctx, &c);
